@@ -123,7 +123,7 @@ theorem rejected_setFrequencies_leaves_stale_cache :
     have h3 : List.take 3 ([1/2, -1/4, 3/4] : List ℝ) = [1/2, -1/4, 3/4] := rfl
     simp only [Obj.setFrequencies, staleWitness, Obj.setFrequenciesBase, hs, Obj.cacheWrite, Obj.matchReq,
       ↓reduceIte, Bool.not_true, Bool.false_eq_true, List.length_cons, List.length_nil, Nat.reduceAdd,
-      Nat.lt_irrefl, OfNat.ofNat_ne_zero, h3, ht, hr]
+      Nat.lt_irrefl, OfNat.ofNat_ne_zero, ne_eq, not_true_eq_false, h3, ht, hr]
   refine ⟨?_, by rw [e], by rw [e], ?_⟩
   · intro _
     simp [staleWitness, Obj.θ, alphas]; norm_num
@@ -132,6 +132,16 @@ theorem rejected_setFrequencies_leaves_stale_cache :
     have := hf rfl
     simp [staleWitness, Obj.θ, alphas] at this
     norm_num at this
+
+/-- the repaired `Simplex::setFrequencies` rejects every vector whose size is not the dimension
+(before: a shorter one that passed the sum test was read out of bounds, of a longer one the first
+`dim` entries were used) and leaves the object untouched -/
+theorem setFrequencies_rejects_wrong_size (o : Obj ℝ) (p : List ℝ) (hd : o.dim ≠ 0) (h1 : p.length ≠ o.dim) :
+    o.setFrequenciesBase p = (o, some Err.sum) := by
+  unfold Obj.setFrequenciesBase
+  by_cases hs : sumOk p = true
+  · simp [hd, hs, h1]
+  · simp [hd, hs]
 
 /-- the repaired `OrderedSimplex::setFrequencies` rejects every non-empty vector whose size is not
 the dimension (shorter ones, formerly read out of bounds, included) and leaves the object untouched -/
@@ -174,7 +184,7 @@ theorem ordered_setFrequencies_unchecked_long_vector :
     simp [Obj.fire, Obj.fireBase, Obj.refresh, Obj.θ, probsGlobal]; norm_num
   have e : longWitness.oSetFrequenciesUnchecked [1/2, 3/10, 1/5] =
       (⟨[⟨1/5, false⟩], 2, 1, [1/5, 4/5], [], some [1/2, 3/10, 1/5]⟩, none) := by
-    simp only [Obj.oSetFrequenciesUnchecked, longWitness, hp, Obj.setFrequenciesBase, hs, Obj.cacheWrite, Obj.matchReq,
+    simp only [Obj.oSetFrequenciesUnchecked, longWitness, hp, Obj.setFrequenciesBaseUnchecked, hs, Obj.cacheWrite, Obj.matchReq,
       ↓reduceIte, Bool.not_true, Bool.false_eq_true, List.length_cons, List.length_nil, Nat.reduceAdd,
       OfNat.ofNat_ne_zero, h12, h3, hpar, ht, hc, hw, hf, Nat.reduceLT]
   refine ⟨⟨⟨Or.inl rfl, by norm_num [longWitness], by norm_num [longWitness], rfl, ?_, by simp [longWitness]⟩, ?_, ?_⟩, e, ?_, ?_⟩
